@@ -87,7 +87,9 @@ CHECKS = {
                   "reference; parse->rebuild round trip on reference-built nationally valid IBANs",
         text="Whatever the library builds (generate, random with/without registry) for the 19 field countries must pass its own "
              "national validation and the independent reference, so compute and validate cannot err the same way; components "
-             "read off nationally valid IBANs of every country with positions rebuild the same BBAN outside filler positions.",
+             "read off nationally valid IBANs of every country with positions rebuild the same BBAN outside filler positions; every "
+             "value of the national check field over bases at both ends of its computed range: whatever the library accepts nationally "
+             "must rebuild to itself.",
         note="Trusted: O-nat; generator of nationally valid BBANs.",
         design="7/C09"),
     "C10": dict(
@@ -171,7 +173,8 @@ CHECKS = {
         text="Generated histories of validation, generation, seeded random generation, lookups, direct algorithm calls (including "
              "failing ones) and operations on stored objects; each step's outcome must equal the outcome of the same call as the "
              "first call in a fresh process; stored objects and the registries must never change. Burst rules route several calls to one "
-             "algorithm object / bank key / BBAN text under sibling countries; failing histories (whole process log) are minimised by "
+             "algorithm object / bank key / BBAN text under sibling countries, and degenerate accounts (one non-zero digit) right after "
+             "edge-remainder accounts; failing histories (whole process log) are minimised by "
              "ddmin in forks of the pristine zygote.",
         note="Trusted: the zygote (fork of an interpreter that imported the library and called nothing) as the meaning of 'fresh "
              "process'; JSON normalisation of outcomes.",
